@@ -41,6 +41,24 @@ func accepts(sig []int64, shape []int) bool {
 	return true
 }
 
+// reluModelDims declares input x with the literal fixed sizes given (d>0), symbolic (-1) or unspecified (0).
+func reluModelDims(sig []int64) []byte {
+	g := &onnx.GraphProto{Name: "g"}
+	dims := make([]hx.DimSpec, len(sig))
+	for i, d := range sig {
+		switch {
+		case d > 0:
+			dims[i] = hx.DimSpec{Fixed: d}
+		case d == -1:
+			dims[i] = hx.DimSpec{Param: fmt.Sprintf("N%d", i)}
+		}
+	}
+	g.Input = append(g.Input, hx.ValueInfo("x", ref.F32, dims))
+	g.Node = append(g.Node, hx.Node("Relu", []string{"x"}, []string{"y_x"}, nil))
+	g.Output = append(g.Output, hx.ValueInfoNoShape("y_x"))
+	return hx.Marshal(hx.Model(g, 13))
+}
+
 func reluModel(inputs map[string][]int64, inits map[string]*ref.T) []byte {
 	g := &onnx.GraphProto{Name: "g"}
 	var names []string
@@ -113,6 +131,29 @@ func checkC13(c *hx.Checker) {
 				tags = append(tags, "supplied-rank-lower")
 			}
 			jobs = append(jobs, job{mc, fmt.Sprintf("sig%v<-%v", sig, sh), tags, !acc || dyn})
+		}
+	}
+	// larger extents (fixed 7 / 64 and dynamic axes fed with 1, 5, 100)
+	for _, sig := range [][]int64{{7}, {-1, 64}, {64, 0}, {7, -1, 7}} {
+		model := reluModelDims(sig)
+		for _, sh := range [][]int{{7}, {5}, {100, 64}, {1, 64}, {64, 5}, {64, 64}, {7, 100, 7}, {7, 1, 8}, {64}, {7, 7}} {
+			x := ref.Distinct(ref.F32, sh)
+			acc := len(sig) == len(sh)
+			if acc {
+				for i, d := range sig {
+					if d > 0 && int(d) != sh[i] {
+						acc = false
+					}
+				}
+			}
+			var mc *modelCase
+			if acc {
+				exp, _ := ref.Unary("Relu", x)
+				mc = newModelCase(model, map[string]*ref.T{"x": x}, "outputs", map[string]*ref.T{"y_x": exp}, hx.Num, "")
+			} else {
+				mc = newModelCase(model, map[string]*ref.T{"x": x}, "error", nil, hx.Num, "")
+			}
+			jobs = append(jobs, job{mc, fmt.Sprintf("large-sig%v<-%v", sig, sh), []string{fmt.Sprintf("accept=%v", acc), "large"}, true})
 		}
 	}
 	// multi-input
